@@ -41,11 +41,16 @@ def main():
     rc16, d16, out16 = run(a.prop, a.n, a.seed, 16, 0, a.tier)
     rch, dh, outh = run(a.prop, a.n, a.seed, 8, 1, a.tier)
     common = sorted(set(d1) & set(d16) & set(dh), key=int)
-    bad = [i for i in common if d1[i] != d16[i]]
-    badv = [i for i in common if d1[i][1] != dh[i][1]]
-    hashdiff = [i for i in common if d1[i][0] != dh[i][0]]
+    # a pair whose traces were edited differently by the oracle's wall-clock net (timeouts under load) is
+    # not comparable; everything else must match exactly
+    def comparable(a, b):
+        return a[2] == b[2] or not (a[3] or b[3])
+    incomparable = [i for i in common if not comparable(d1[i], d16[i]) or not comparable(d1[i], dh[i])]
+    bad = [i for i in common if comparable(d1[i], d16[i]) and d1[i][:2] != d16[i][:2]]
+    badv = [i for i in common if comparable(d1[i], dh[i]) and d1[i][1] != dh[i][1]]
+    hashdiff = [i for i in common if comparable(d1[i], dh[i]) and d1[i][0] != dh[i][0]]
     print(json.dumps(dict(property=a.prop, seeds=len(common), exit_codes=[rc1, rc16, rch],
-                          digest_mismatch_workers_1_vs_16=bad, verdict_mismatch_other_hashseed=badv,
+                          digest_mismatch_workers_1_vs_16=bad, incomparable_because_of_oracle_timeouts=incomparable, verdict_mismatch_other_hashseed=badv,
                           digest_differs_under_other_hashseed=len(hashdiff))))
     if bad or badv or len(common) < a.n or any(rc not in (0, 1) for rc in (rc1, rc16, rch)):
         print(out1[-800:], out16[-800:], outh[-800:])
